@@ -357,7 +357,7 @@ class FakeSignal(_Base):
 
     def put(self, v):
         old, self._value = self._value, v
-        self.ctx.timeline.append(("put", self.name, v, len(self.subs)))
+        self.ctx.timeline.append(("put", self.name, v, len(self.subs), round(self.ctx.loop.time(), 6)))
         for cb in list(self.subs):
             cb(value=v, old_value=old, timestamp=self.ctx.loop.time(), obj=self)
 
